@@ -375,6 +375,14 @@ func (e *Engine) loopSpecCtx(st *State, ctx *LoopCtx) *specCtx {
 	if len(names) <= len(fr.Params) {
 		addPositional(env, names, sig, "arg")
 	}
+	// captured variables of a closure (references to the variables), as in its contract
+	for _, fv := range fr.Fn.FreeVars {
+		if v, ok := fr.Regs[fv]; ok {
+			if _, shadowed := env[fv.Name()]; !shadowed {
+				env[fv.Name()] = specBind{v, fv.Type()}
+			}
+		}
+	}
 	if len(st.Frames) > 1 && e.isInlinedLoopOverride(fr, ctx) {
 		// invariants the function under verification supplies for a loop of an inlined callee may also name its own parameters
 		// (entry values), as far as the callee's parameter names do not shadow them
